@@ -1,6 +1,269 @@
-(* C11 — proof obligations (statements only). *)
-From mathcomp Require Import ssreflect ssrfun ssrbool eqtype ssrnat seq.
-Require Import C11.Model.
+(* C11 — MINRES solves all shifted systems; contour quadrature gives the matrix root.
+   Proof obligations (statements only; proofs are in ProofsRefine.v / ProofsAny.v / ProofsExact.v /
+   ProofsResidual.v / ProofsCIQ.v).  Everything is about the transcription coq/C11/Model.v of
+   linear_operator/utils/minres.py, utils/contour_integral_quad.py, functions/_sqrt_inv_matmul.py.
 
-Theorem C11_rot_cycle (r : rot) : rnext (rnext (rnext r)) = r.
-Proof. by case: r. Qed.
+   Quantification: every theorem holds for ALL sizes n, ALL numbers of columns / batch members, ALL
+   numbers of shifts Q, ALL iteration counts / budgets.  `Section AnyArithmetic`: every arithmetic
+   (binary64 included), arbitrary closures.  `Section ExactArithmetic`: the model instantiated on an
+   arbitrary real closed field (exact arithmetic, x/0 = 0).  `Section ContourQuadrature`: MathComp
+   matrices over an arbitrary field.
+
+   NOT PROVED (DESIGN.md section 6; the property is claimed PARTIAL): that the MINRES iterates converge to
+   the solutions of the shifted systems (Paige-Saunders: needs orthogonality of the Lanczos vectors and the
+   minimal-residual characterisation) and the accuracy of the elliptic-function quadrature rule.  Both enter
+   the CIQ theorems as explicit hypotheses (`exact solves`, `scalar rule`) and are checked numerically on
+   the implementation by harness/c11.py (support only). *)
+From mathcomp Require Import all_ssreflect all_algebra.
+Require Import C11.Model C11.ProofsRefine C11.ProofsAny C11.ProofsExact C11.ProofsResidual C11.ProofsCIQ.
+Set Implicit Arguments.
+Unset Strict Implicit.
+Unset Printing Implicit Defensive.
+Import GRing.Theory Num.Theory.
+
+Section AnyArithmetic.
+Variable F : Type.
+Variable A : Arith F.
+
+(* The line-by-line model with physical buffers, name rotations and uninitialised torch.empty buffers
+   computes exactly what the buffer-free recurrences compute: no stale / uninitialised content is ever
+   read, every rotation hands each role the right buffer — for every iteration count. *)
+Theorem C11_buffers_refine (J : mr_junk F) (S : mr_settings F) (g : mr_args F) :
+  minres_buf A J S g = minres A S g.
+Proof. exact: minres_buf_refines. Qed.
+
+Theorem C11_empty_buffers_irrelevant (J J' : mr_junk F) (S : mr_settings F) (g : mr_args F) :
+  minres_buf A J S g = minres_buf A J' S g.
+Proof. exact: minres_buf_junk_irrelevant. Qed.
+
+(* the three names of a rotating family always denote three different physical buffers, and after k
+   rotations the name `prev2` denotes buffer k mod 3 *)
+Theorem C11_roles_distinct (r : rot) (k k' : role) : slot r k = slot r k' -> k = k'.
+Proof. exact: slot_inj. Qed.
+
+Theorem C11_rotation_period (k : nat) :
+  rot_iter k = match k %% 3 with 0 => R0 | 1 => R1 | _ => R2 end.
+Proof. exact: rot_iter_mod3. Qed.
+
+(* zero right-hand sides: a column with ||b|| < 1e-10 gives the product 0 * 1 in every entry, for every
+   shift, whatever the loop produced for it (NaN from 0/0 included) *)
+Theorem C11_minres_zero_rhs (S : mr_settings F) (g : mr_args F) q j i :
+  q < shifts_Q g -> j < size (g_rhs g) -> i < g_n g -> rhs_col_is_zero A S g j ->
+  xget A (o_sol (minres A S g)) q j i = amul A (a0 A) (a1 A).
+Proof. exact: minres_zero_rhs_any. Qed.
+
+(* shape rules: the leading (shift) dimension is dropped iff shifts.numel() == 1 — and then it has size 1, so
+   squeeze(0) is legal —, the column dimension iff the rhs was 1-D; the value table always has the full
+   Q x C x n layout *)
+Theorem C11_minres_shift_dim (S : mr_settings F) (g : mr_args F) (batch : seq nat) (t : nat) :
+  [/\ o_sq_first (minres A S g) = (shifts_numel g == 1),
+      o_sq_last (minres A S g) = g_rhs_is_vec g,
+      (shifts_numel g == 1 -> shifts_Q g = 1),
+      out_shape g batch t =
+        (if shifts_numel g == 1 then [::] else [:: shifts_Q g]) ++ batch ++
+        g_n g :: (if g_rhs_is_vec g then [::] else [:: t])
+    & size (out_shape g batch t) = (shifts_numel g != 1) + size batch + 1 + ~~ g_rhs_is_vec g].
+Proof.
+have [h1 h2] := minres_flags A S g.
+split=> //; [exact: shift_squeeze_legal | exact: out_shape_rank].
+Qed.
+
+Theorem C11_minres_layout (S : mr_settings F) (g : mr_args F) q j :
+  let o := o_sol (minres A S g) in
+  size o = shifts_Q g /\
+  (q < shifts_Q g -> size (nth [::] o q) = size (g_rhs g)) /\
+  (q < shifts_Q g -> j < size (g_rhs g) -> size (nth [::] (nth [::] o q) j) = g_n g).
+Proof. exact: minres_layout. Qed.
+
+(* the stopping rule: the loop returns the iterate after k bodies, k being the first multiple of 10 (counted
+   from the start) at which mean(||update|| / ||solution||) < tolerance, or the whole budget *)
+Theorem C11_stopping_rule Q C n mm pre value shifts eps tol fuel (s : mr_state F) :
+  exists k, [/\ k <= fuel,
+                st_loop A Q C n mm pre value shifts eps tol fuel 0 s
+                  = (st_iter A Q C n mm pre value shifts eps k s, k),
+                (k = fuel \/ (0 < k /\ (k %% 10 == 0)))
+              & forall k', 0 < k' -> k' < k ->
+                  ~~ conv_test A Q C n tol k'.-1 (supd (st_iter A Q C n mm pre value shifts eps k' s))
+                                              (sol (st_iter A Q C n mm pre value shifts eps k' s))].
+Proof.
+have [k [h1 h2 h3 h4]] := st_loop_spec A Q C n mm pre value shifts eps tol fuel 0 s.
+exists k; split=> //.
+case: h3 => [->|[hk hc]]; [by left | right; split=> //].
+by move: (conv_only_every_10th hc); rewrite add0n prednK.
+Qed.
+
+(* the model of contour_integral_quad (given shifts) and of SqrtInvMatmul.forward without lhs are literally
+   solves[1:], solves[0] and (solves * weights).sum(0) of the buffer-free minres called with value = -1 and the
+   shifts broadcast over the t columns of each batch member: this is what links the contour-quadrature theorems
+   below (which are about arbitrary exact solves) to the MINRES model *)
+Theorem C11_ciq_unfolds (J : mr_junk F) (S : mr_settings F) (mmK : cols F -> cols F) n t B rhs
+    (shifts weights : seq (seq F)) eps :
+  let g := MkArgs mmK None n false rhs eps
+             (Some ([:: size shifts; B], qtab (size shifts) (B * t) (fun q j => sget A (nth [::] shifts q) (j %/ t))))
+             (Some (neg1 A)) None in
+  [/\ c_solves (ciq A J S mmK n t B rhs true shifts eps) = behead (o_sol (minres A S g)),
+      c_no_shift (ciq A J S mmK n t B rhs true shifts eps) = nth [::] (o_sol (minres A S g)) 0
+    & (sqrt_inv_matmul A J S mmK n t B rhs None shifts weights eps).1.1
+      = wsum A (size weights) (B * t) n t weights (behead (o_sol (minres A S g)))].
+Proof. by rewrite /sqrt_inv_matmul /ciq !minres_buf_refines. Qed.
+
+End AnyArithmetic.
+
+Section ExactArithmetic.
+Variable R : rcfType.
+Local Open Scope ring_scope.
+Notation AR := (ArR R).
+
+(* in exact arithmetic 0 * 1 = 0: zero columns give exactly zero *)
+Corollary C11_minres_zero_rhs_exact (S : mr_settings R) (g : mr_args R) q j i :
+  (q < shifts_Q g)%N -> (j < size (g_rhs g))%N -> (i < g_n g)%N -> rhs_col_is_zero AR S g j ->
+  xget AR (o_sol (minres AR S g)) q j i = 0.
+Proof. by move=> *; rewrite minres_zero_rhs_any //= mul0r. Qed.
+
+(* positive scaling, column by column: if no column is (or becomes) a "zero" column,
+   minres (c . b) = c . minres b, with the same iteration count and the same shape *)
+Theorem C11_minres_scaling (S : mr_settings R) (c : nat -> R) (g : mr_args R) :
+  (forall j, (j < size (g_rhs g))%N -> 0 < c j) ->
+  (forall j, (j < size (g_rhs g))%N ->
+     ~~ rhs_col_is_zero AR S g j /\ ~~ rhs_col_is_zero AR S (scale_rhs c g) j) ->
+  let o := minres AR S g in
+  let o' := minres AR S (scale_rhs c g) in
+  [/\ o_iters o' = o_iters o, o_sq_first o' = o_sq_first o, o_sq_last o' = o_sq_last o
+    & forall q j i, (q < shifts_Q g)%N -> (j < size (g_rhs g))%N -> (i < g_n g)%N ->
+        xget AR (o_sol o') q j i = c j * xget AR (o_sol o) q j i].
+Proof. exact: minres_scaling_exact. Qed.
+
+Section Recurrences.
+Variables (Q C n : nat) (mm pre : cols R -> cols R) (value : option R) (shifts : qc R) (eps : R).
+Hypothesis eps_pos : 0 < eps.
+Notation iter k rhs := (st_iter AR Q C n mm pre value shifts eps k (st_init AR Q C n pre rhs)).
+Notation step s := (st_step AR Q C n mm pre value shifts eps s).
+
+(* every Givens pair kept by the loop is a rotation (cos^2 + sin^2 = 1), for every shift, column and
+   iteration count, for arbitrary closures *)
+Theorem C11_givens_rotations k rhs q j :
+  (q < Q)%N -> (j < C)%N ->
+  qget AR (cp1 (iter k rhs)) q j ^+ 2 + qget AR (sp1 (iter k rhs)) q j ^+ 2 = 1 /\
+  qget AR (cp2 (iter k rhs)) q j ^+ 2 + qget AR (sp2 (iter k rhs)) q j ^+ 2 = 1.
+Proof. by move=> hq hj; have H := @givens_ok_iter R Q C n mm pre value shifts eps eps_pos k rhs; apply: H. Qed.
+
+(* MINRES' residual-norm estimate: |scale_prev| never grows, and
+   scale_prev after k bodies = (-1)^k beta_0 prod_{m<k} sin_m *)
+Theorem C11_scale_nonincreasing s q j :
+  (q < Q)%N -> (j < C)%N -> `|qget AR (scp (step s)) q j| <= `|qget AR (scp s) q j|.
+Proof. exact: scale_nonincreasing. Qed.
+
+Theorem C11_scale_product rhs k q j : (q < Q)%N -> (j < C)%N ->
+  qget AR (scp (iter k rhs)) q j =
+  (-1) ^+ k * sget AR (bprev (iter 0 rhs)) j
+  * \prod_(m < k) @g_sin R C n mm pre value shifts eps (iter m rhs) q j.
+Proof. exact: scale_product. Qed.
+
+(* the Lanczos half: beta_{k+2} z_{k+2} = (value K) q_{k+1} - alpha_{k+1} z_{k+1} - beta_{k+1} z_k with
+   alpha = <(value K) q, q> and beta_{k+1} >= eps > 0 (never a division by zero), for arbitrary closures *)
+Theorem C11_lanczos_three_term rhs k j i : (j < C)%N -> (i < n)%N ->
+  sget AR (bprev (iter k.+2 rhs)) j * cg2 AR (zp1 (iter k.+2 rhs)) j i =
+  cg2 AR (mm_value AR C n mm value (qp1 (iter k.+1 rhs))) j i
+  - sget AR (lz_alpha AR C n mm value (iter k.+1 rhs)) j * cg2 AR (zp1 (iter k.+1 rhs)) j i
+  - sget AR (bprev (iter k.+1 rhs)) j * cg2 AR (zp1 (iter k rhs)) j i.
+Proof. move=> hj hi; exact: (@lanczos_three_term R Q C n mm pre value shifts eps eps_pos rhs k j i hj hi). Qed.
+
+Theorem C11_lanczos_coefficients s j : (j < C)%N ->
+  sget AR (lz_alpha AR C n mm value s) j
+    = \sum_(i < n) cg2 AR (mm_value AR C n mm value (qp1 s)) j i * cg2 AR (qp1 s) j i
+  /\ eps <= sget AR (bprev (step s)) j.
+Proof. by move=> hj; split; [exact: lanczos_alpha | exact: lz_beta_ge]. Qed.
+
+End Recurrences.
+
+(* the MINRES residual recurrence (Paige-Saunders  r_k = sin_k^2 r_{k-1} - phibar_k cos_k v_{k+1}  in the form the code
+   keeps it): without preconditioner and for a LINEAR closure (column j multiplied by the matrix M j, not
+   necessarily symmetric), for every shift, column and number k of loop bodies the true residual of the k-th
+   iterate of  (value*K + s I) x = b^  is  scale_prev_k * pbar_k,  pbar_0 = z_1,
+   pbar_{k+1} = - sin_{k+1} pbar_k + cos_{k+1} z_{k+2}.   Purely algebraic: no orthogonality is used, no
+   division by zero occurs.  (||pbar_k|| = 1 and minimality of the residual are NOT proved.) *)
+Theorem C11_minres_true_residual Q C n (mm : cols R -> cols R) (value : option R) (shifts : qc R) (eps : R)
+    (M : nat -> nat -> nat -> R) q j rhs k i :
+  0 < eps ->
+  (forall X j i, (j < C)%N -> (i < n)%N -> cg2 AR (mm X) j i = \sum_(l < n) M j i l * cg2 AR X j l) ->
+  (q < Q)%N -> (j < C)%N -> (i < n)%N ->
+  let iter k := st_iter AR Q C n mm (fun X => X) value shifts eps k (st_init AR Q C n (fun X => X) rhs) in
+  let v := if value is Some a then a else 1 in
+  let x l := xget AR (sol (iter k)) q j l in
+  let pb := pbar Q C n mm value shifts eps q j rhs in
+  [/\ cg2 AR rhs j i - ((\sum_(l < n) M j i l * x l) * v + qget AR shifts q j * x i)
+        = qget AR (scp (iter k)) q j * pb k i,
+      pb 0%N i = cg2 AR (zp1 (iter 0%N)) j i
+    & pb k.+1 i = - qget AR (sp1 (iter k.+1)) q j * pb k i
+                  + qget AR (cp1 (iter k.+1)) q j * cg2 AR (zp1 (iter k.+1)) j i].
+Proof.
+move=> he hl hq hj hi /=; split=> //; first exact: (minres_true_residual value shifts he hl hq hj rhs k hi).
+by rewrite /pb_next (step_sp1 _ _ _ _ _ _ _ hq hj) (step_cp1 _ _ _ _ _ _ _ hq hj).
+Qed.
+
+End ExactArithmetic.
+
+Section ContourQuadrature.
+Variable F : fieldType.
+Local Open Scope ring_scope.
+
+(* spectral lifting: exact shifted solves + scalar rule on the eigenvalues => matrix function *)
+Theorem C11_ciq_spectral_lifting n (K P : 'M[F]_n) (lam r : 'rV[F]_n) (v : F) Nq (w s : 'I_Nq -> F)
+    (x : 'I_Nq -> 'cV[F]_n) (b : 'cV[F]_n) :
+  P^T *m P = 1%:M -> K = P *m diag_mx lam *m P^T ->
+  (forall q i, v * lam 0 i + s q != 0) ->
+  (forall q, (v *: K + (s q)%:M) *m x q = b) ->
+  (forall i, \sum_q w q / (v * lam 0 i + s q) = r 0 i) ->
+  \sum_q w q *: x q = P *m diag_mx r *m P^T *m b.
+Proof. move=> o sp nz hx hr; exact: (ciq_spectral_lifting o sp nz hx hr). Qed.
+
+(* with r_i = lam_i^(-1/2): the result is K^(-1/2) b in the sense that applying the map twice gives K^-1 b
+   (sqrt_inv_matmul twice = solve), K times the map squares to K and has covariance K (ciq sampling) *)
+Theorem C11_ciq_twice_is_inverse n (K P : 'M[F]_n) (lam r : 'rV[F]_n) (b : 'cV[F]_n) :
+  P^T *m P = 1%:M -> K = P *m diag_mx lam *m P^T -> (forall i, r 0 i * r 0 i * lam 0 i = 1) ->
+  let Rt := P *m diag_mx r *m P^T in
+  [/\ Rt *m (Rt *m b) = invmx K *m b, K \in unitmx, (K *m Rt) *m (K *m Rt) = K
+    & (K *m Rt) *m (K *m Rt)^T = K].
+Proof.
+move=> o sp rt; split;
+  [exact: (root_twice o sp rt) | exact: (K_unit o sp rt) | exact: (sqrt_squares o sp rt) | exact: (sqrt_covariance o sp rt)].
+Qed.
+
+(* left-factor variant: the no-shift solve (value = -1) gives  -(y^T l) = l^T K^-1 l, an entry of
+   diag(L K^-1 L^T) *)
+Theorem C11_ciq_inv_quad n (K P : 'M[F]_n) (lam : 'rV[F]_n) (y l : 'cV[F]_n) :
+  K = P *m diag_mx lam *m P^T -> K \in unitmx -> (-1) *: K *m y = l ->
+  - (y^T *m l) = l^T *m invmx K *m l.
+Proof. move=> sp; exact: (inv_quad_term sp). Qed.
+
+(* the same statement about the list model: column j of (solves * weights).sum(0) as computed by the
+   transcription of SqrtInvMatmul.forward / the sampling branch *)
+Theorem C11_ciq_model_partial Nq C n t (weights : seq (seq F)) (solves : qcols F) j
+    (K P : 'M[F]_n) (lam r : 'rV[F]_n) (v : F) (shift : 'I_Nq -> F) (b : 'cV[F]_n) :
+  (j < C)%N ->
+  P^T *m P = 1%:M -> K = P *m diag_mx lam *m P^T ->
+  (forall q i, v * lam 0 i + shift q != 0) ->
+  (* exact shifted solves: what MINRES convergence would give — NOT PROVED *)
+  (forall q : 'I_Nq, (v *: K + (shift q)%:M) *m cv_of n (cget (nth [::] solves q) j) = b) ->
+  (* scalar quadrature rule on the spectrum: what the elliptic quadrature would give — NOT PROVED *)
+  (forall i, \sum_(q < Nq) sget (ArF F) (nth [::] weights q) (j %/ t) / (v * lam 0 i + shift q) = r 0 i) ->
+  cv_of n (cget (wsum (ArF F) Nq C n t weights solves) j) = P *m diag_mx r *m P^T *m b.
+Proof. exact: wsum_exact. Qed.
+
+(* the hypotheses of the lifting theorems are satisfiable (1 x 1, one node, in every field) *)
+Example C11_ciq_hypotheses_satisfiable :
+  let K : 'M[F]_1 := 1%:M in let P : 'M[F]_1 := 1%:M in let lam : 'rV[F]_1 := const_mx 1 in
+  let r : 'rV[F]_1 := const_mx 1 in let v : F := -1 in
+  let w : 'I_1 -> F := fun _ => -1 in let s : 'I_1 -> F := fun _ => 0 in
+  [/\ P^T *m P = 1%:M, K = P *m diag_mx lam *m P^T, (forall q i, v * lam 0 i + s q != 0),
+      (forall i, \sum_q w q / (v * lam 0 i + s q) = r 0 i) & (forall i, r 0 i * r 0 i * lam 0 i = 1)].
+Proof.
+split.
+- by rewrite trmx1 mulmx1.
+- by rewrite diag_const_mx trmx1 !mulmx1.
+- by move=> q i; rewrite mxE mulr1 addr0 oppr_eq0 oner_eq0.
+- by move=> i; rewrite big_ord1 !mxE mulr1 addr0 divff // oppr_eq0 oner_eq0.
+- by move=> i; rewrite !mxE !mulr1.
+Qed.
+
+End ContourQuadrature.
